@@ -1,4 +1,5 @@
 import BiotiteModel.Proofs.C20
+import BiotiteModel.Proofs.C20Web
 import BiotiteModel.Gen.C20
 /-!
 # C20 — property theorems (application wrappers follow their life cycle and always clean up)
@@ -11,7 +12,7 @@ The model is the code *after* the four `fix:` commits listed in notes/C20.md; be
 and `C20_refusal_pure` were false (witnesses are kept as regression cases in known_findings.d/C20.json).
 -/
 namespace BiotiteModel.C20
-open BiotiteModel.Gen.C20 (methods assigns skeleton tempFilesCreated refusalPolls)
+open BiotiteModel.Gen.C20 (methods assigns skeleton tempFilesCreated refusalPolls bases internalCalls)
 
 /-! ## Ties to the source (tables regenerated from `/repo` on every run) -/
 
@@ -21,7 +22,7 @@ def tableAsStrings : List (String × String × Option (List String)) :=
 
 /-- The allowed-call table the state machine consults **is** the table of `@requires_state(...)` decorators (and of
 undecorated public methods) found in the anchored classes. -/
-theorem C20_table_tie : tableAsStrings = methods := by decide
+theorem C20_table_tie : tableAsStrings = methods := by decide +kernel
 
 /-- Every `self._state = AppState.X` assignment in the anchored files is one the model transcribes
 (`start`: CANCELLED on a failed launch, else RUNNING; `join`: FINISHED, then CANCELLED or JOINED; `cancel`; the lazy
@@ -30,7 +31,8 @@ theorem C20_assigns_tie : assigns =
     [("Application", "__init__", ["CREATED"]), ("Application", "cancel", ["CANCELLED"]),
      ("Application", "get_app_state", ["FINISHED"]), ("Application", "join", ["CANCELLED", "JOINED"]),
      ("Application", "start", ["CANCELLED", "RUNNING"]),
-     ("LocalApp", "join", ["FINISHED", "CANCELLED", "JOINED"])] := by decide
+     ("LocalApp", "join", ["FINISHED", "CANCELLED", "JOINED"]),
+     ("_DumpApp", "join", ["FINISHED", "CANCELLED", "JOINED"])] := by decide
 
 /-- The life-cycle skeleton of the transcribed methods: where `clean_up()`, `cancel()`, `evaluate()`, `kill()`,
 `chdir()` are called relative to the `try`/`except`/`else`/`finally` blocks, the state assignments and the `raise`s; and
@@ -42,24 +44,32 @@ theorem C20_skeleton_tie : skeleton =
      ("Application", "get_app_state", ["if{", "if{", "call:is_finished", "assign:FINISHED", "}", "}"]),
      ("Application", "is_finished", []),
      ("Application", "join", ["while{", "call:get_app_state", "if{", "call:cancel", "raise:TimeoutError", "}", "}",
-        "try{", "call:evaluate", "}", "handler:AppStateError{", "raise", "}",
-        "handler:*{", "assign:CANCELLED", "call:clean_up", "raise", "}", "else{", "assign:JOINED", "}", "call:clean_up"]),
+        "try{", "call:evaluate", "}", "handler:AppStateError{", "raise", "}", "handler:*{", "assign:CANCELLED",
+        "call:clean_up", "raise", "}", "else{", "assign:JOINED", "}", "call:clean_up"]),
      ("Application", "run", []),
-     ("Application", "start", ["try{", "call:run", "}", "handler:*{", "assign:CANCELLED",
-        "try{", "call:clean_up", "}", "handler:Exception{", "}", "raise", "}", "assign:RUNNING"]),
+     ("Application", "start", ["try{", "call:run", "}", "handler:*{", "assign:CANCELLED", "try{", "call:clean_up",
+        "}", "handler:Exception{", "}", "raise", "}", "assign:RUNNING"]),
+     ("BlastWebApp", "clean_up", []),
+     ("BlastWebApp", "evaluate", []),
+     ("BlastWebApp", "is_finished", ["if{", "raise:ValueError", "}"]),
+     ("BlastWebApp", "run", ["if{", "raise:ValueError", "}"]),
      ("ClustalOmegaApp", "clean_up", ["super:clean_up", "call:cleanup_tempfile", "call:cleanup_tempfile",
         "call:cleanup_tempfile", "call:cleanup_tempfile"]),
      ("ClustalOmegaApp", "evaluate", ["super:evaluate"]),
      ("ClustalOmegaApp", "run", ["super:run"]),
+     ("DsspApp", "clean_up", ["super:clean_up", "call:cleanup_tempfile", "call:cleanup_tempfile"]),
+     ("DsspApp", "evaluate", ["super:evaluate", "if{", "raise:ValueError", "}"]),
+     ("DsspApp", "run", ["super:run"]),
      ("LocalApp", "clean_up", ["if{", "call:get_app_state", "proc:kill", "}"]),
      ("LocalApp", "evaluate", ["super:evaluate", "if{", "raise:SubprocessError", "}"]),
      ("LocalApp", "is_finished", ["else{", "proc:communicate", "}"]),
      ("LocalApp", "join", ["try{", "proc:communicate", "}", "handler:TimeoutExpired{", "call:cancel",
-        "raise:TimeoutError", "}", "assign:FINISHED",
-        "try{", "call:evaluate", "}", "handler:AppStateError{", "raise", "}",
-        "handler:*{", "assign:CANCELLED", "call:clean_up", "raise", "}", "else{", "assign:JOINED", "}", "call:clean_up"]),
+        "raise:TimeoutError", "}", "assign:FINISHED", "try{", "call:evaluate", "}", "handler:AppStateError{",
+        "raise", "}", "handler:*{", "assign:CANCELLED", "call:clean_up", "raise", "}", "else{", "assign:JOINED", "}",
+        "call:clean_up"]),
      ("LocalApp", "run", ["call:chdir", "try{", "call:Popen", "}", "finally{", "call:chdir", "}"]),
-     ("MSAApp", "clean_up", ["super:clean_up", "call:cleanup_tempfile", "call:cleanup_tempfile", "call:cleanup_tempfile"]),
+     ("MSAApp", "clean_up", ["super:clean_up", "call:cleanup_tempfile", "call:cleanup_tempfile",
+        "call:cleanup_tempfile"]),
      ("MSAApp", "evaluate", ["super:evaluate"]),
      ("MSAApp", "run", ["super:run"]),
      ("MafftApp", "clean_up", ["super:clean_up", "try{", "call:remove", "}", "handler:FileNotFoundError{", "}"]),
@@ -69,7 +79,31 @@ theorem C20_skeleton_tie : skeleton =
      ("Muscle5App", "run", ["super:run"]),
      ("MuscleApp", "clean_up", ["super:clean_up", "call:cleanup_tempfile", "call:cleanup_tempfile"]),
      ("MuscleApp", "evaluate", ["super:evaluate"]),
-     ("MuscleApp", "run", ["super:run"])] := by decide
+     ("MuscleApp", "run", ["super:run"]),
+     ("RNAalifoldApp", "clean_up", ["super:clean_up", "call:cleanup_tempfile", "call:cleanup_tempfile"]),
+     ("RNAalifoldApp", "evaluate", ["super:evaluate"]),
+     ("RNAalifoldApp", "run", ["super:run"]),
+     ("RNAfoldApp", "clean_up", ["super:clean_up", "call:cleanup_tempfile"]),
+     ("RNAfoldApp", "evaluate", ["super:evaluate"]),
+     ("RNAfoldApp", "run", ["super:run"]),
+     ("RNAplotApp", "clean_up", ["super:clean_up", "call:cleanup_tempfile"]),
+     ("RNAplotApp", "evaluate", ["super:evaluate"]),
+     ("RNAplotApp", "run", ["super:run"]),
+     ("TantanApp", "clean_up", ["super:clean_up", "call:cleanup_tempfile", "if{", "call:cleanup_tempfile", "}"]),
+     ("TantanApp", "evaluate", ["super:evaluate"]),
+     ("TantanApp", "run", ["super:run"]),
+     ("VinaApp", "clean_up", ["super:clean_up", "call:cleanup_tempfile", "call:cleanup_tempfile",
+        "call:cleanup_tempfile", "call:cleanup_tempfile"]),
+     ("VinaApp", "evaluate", ["super:evaluate"]),
+     ("VinaApp", "run", ["super:run"]),
+     ("_DumpApp", "clean_up", ["if{", "call:get_app_state", "proc:kill", "}"]),
+     ("_DumpApp", "evaluate", ["super:evaluate", "if{", "raise:SubprocessError", "}"]),
+     ("_DumpApp", "is_finished", ["else{", "proc:communicate", "}"]),
+     ("_DumpApp", "join", ["try{", "proc:communicate", "}", "handler:TimeoutExpired{", "call:cancel",
+        "raise:TimeoutError", "}", "assign:FINISHED", "try{", "call:evaluate", "}", "handler:AppStateError{",
+        "raise", "}", "handler:*{", "assign:CANCELLED", "call:clean_up", "raise", "}", "else{", "assign:JOINED", "}",
+        "call:clean_up"]),
+     ("_DumpApp", "run", ["call:Popen"])] := by decide
 
 /-- Number of `cleanup_tempfile(...)` calls in a class's own `clean_up`. -/
 def cleanedBy (cls : String) : Nat :=
@@ -82,9 +116,63 @@ per-wrapper file counts are the sums along the inheritance chain. -/
 theorem C20_tempfiles_tie :
     (∀ e ∈ tempFilesCreated, cleanedBy e.1 = e.2) ∧
     (∀ w : Wrapper, w ≠ .base →
-      initFiles w = (w.mro.map fun c => ((tempFilesCreated.find? (·.1 = c)).map (·.2)).getD 0).sum) := by
+      initFiles w + (if w = .tantan then 1 else 0) =     -- TantanApp's matrix file exists only if a matrix is passed
+        (w.mro.map fun c => ((tempFilesCreated.find? (·.1 = c)).map (·.2)).getD 0).sum) := by
   refine ⟨by decide, fun w hw => ?_⟩
   cases w <;> first | exact absurd rfl hw | decide
+
+/-- Single-inheritance parent of a class according to the source. -/
+def parentOf (c : String) : Option String := (bases.find? (·.1 = c)).bind (·.2.head?)
+
+/-- Method resolution order of a class computed from the regenerated `bases` (fuel = depth of the hierarchy). -/
+def mroOf : Nat → String → List String
+  | 0, c => [c]
+  | n + 1, c => match parentOf c with
+    | some p => c :: mroOf n p
+    | none => [c]
+
+/-- The model's hand-written MROs are the source's inheritance chains. -/
+theorem C20_mro_tie : ∀ w : Wrapper, w ≠ .base → mroOf 6 (w.mro.headD "") = w.mro := by
+  intro w hw
+  cases w <;> first | exact absurd rfl hw | decide
+
+/-- State(s) the wrapper is in while one of its hooks runs: `run` ← `start` (CREATED), `is_finished` ← `get_app_state`
+(RUNNING), `evaluate` ← `join` (FINISHED), `clean_up` (JOINED or CANCELLED). -/
+def ctxStates : String → List AppState
+  | "run" => [.created]
+  | "is_finished" => [.running]
+  | "evaluate" => [.finished]
+  | "clean_up" => [.joined, .cancelled]
+  | _ => []
+
+/-- For a concrete class `cls`: a guarded public method that some class in its MRO calls on `self` inside a hook is
+allowed in the state the hook runs in. -/
+def callOk (cls : String) (e : String × String × String) : Bool :=
+  let mro := mroOf 6 cls
+  !(mro.contains e.1) ||
+    match resolve table mro e.2.2 with
+    | some g => (ctxStates e.2.1).all (passes g)
+    | none => true
+
+/-- **No hook of any `Application` subclass in `biotite.application` can trip over its own state guard**: every
+guarded method called on `self` inside `run` / `is_finished` / `evaluate` / `clean_up` (regenerated list
+`internalCalls`) allows the state in which that hook runs — for all 18 classes (4 MSA wrappers, DSSP, tantan, ViennaRNA ×3,
+Vina, SRA ×3, BLAST, and the bases).  In particular `evaluate()` cannot raise `AppStateError` through a guard. -/
+theorem C20_internal_calls_allowed :
+    (bases.map (·.1)).all (fun c => internalCalls.all (callOk c)) = true := by decide +kernel
+
+/-- The `except AppStateError: raise` branch of `join` (which would leave the state FINISHED without clean-up) is
+unreachable: in the model no `evaluate()` outcome is a state error — the only source of `AppStateError` in the anchored
+code is a guard, and `C20_internal_calls_allowed` shows no guard can fire inside a hook — hence `join` never ends with a
+state error once it passed its own guard, and always ends JOINED or CANCELLED (or diverges). -/
+theorem C20_join_state_error_unreachable (s : St) :
+    (∀ e, evaluate s = .error e → e ≠ .stateError) ∧
+    (joinTail s).2 ≠ .err .stateError ∧
+    (∀ t, tableAllows s.w (.join t) s.state = true → (step s (.join t)).2 ≠ .err .stateError) := by
+  refine ⟨fun e he => ?_, joinTail_res s, fun t ht h => ?_⟩
+  · rcases evaluate_err s e he with h | h <;> simp [h, errSubprocess, errEval]
+  · have := (step_refused_iff s (.join t)).1 h
+    simp [ht] at this
 
 /-- The refusal branch of `requires_state` does not call `get_app_state()` / `is_finished()`. -/
 theorem C20_refusal_no_poll : refusalPolls = false := by decide
@@ -189,6 +277,75 @@ theorem C20_run_ends_terminal (s : St) :
           (∀ e, (step s (.join t)).2 = .err e → e ≠ .stateError → (step s (.join t)).1.state = .cancelled)) ∧
     ((step s .cancel).2 = .ok "" → (step s .cancel).1.state = .cancelled) :=
   ⟨start_ends s, fun t => join_ends s t, cancel_ends s⟩
+
+/-! ## WebApp / BlastWebApp: the rule layer on top of the generic life cycle (`Model/C20Web.lean`) -/
+
+section WebRules
+open BiotiteModel.C20.Web
+
+/-- The model's rule constants, comparison and order of operations are the source's: `_contact_delay = 3`,
+`_request_delay = 60`, both stamps start at 0, both tests are `now - last < delay`, `violate_rule()` is called before the
+stamp is overwritten, and `WebApp.violate_rule` raises exactly under `_obey_rules`. -/
+theorem C20_web_rules_tie :
+    (BiotiteModel.Gen.C20.webContactDelay : Int) = contactDelay ∧
+    (BiotiteModel.Gen.C20.webRequestDelay : Int) = requestDelay ∧
+    BiotiteModel.Gen.C20.webInitialStamps = [0, 0] ∧
+    BiotiteModel.Gen.C20.webRules = [("_contact", "Lt", true), ("_request", "Lt", true)] ∧
+    BiotiteModel.Gen.C20.webViolateOnlyIfObey = true ∧
+    resolve table blastMro "start" = some (some [.created]) ∧
+    resolve table blastMro "join" = some (some [.running, .finished]) ∧
+    resolve table blastMro "cancel" = some (some [.running, .finished]) ∧
+    resolve table blastMro "get_app_state" = some none := by decide
+
+/-- A server contact / a search request / `violate_rule()` is refused (`RuleViolationError`) **exactly** when the rules
+are to be obeyed and less than 3 s (contact) resp. 60 s (request) have passed on the clock since the last accepted one. -/
+theorem C20_web_refused_iff (w : Web) :
+    ((contact w).2 = some errRule ↔ (w.obey = true ∧ w.now - w.lastContact < 3)) ∧
+    ((request w).2 = some errRule ↔ (w.obey = true ∧ w.now - w.lastRequest < 60)) ∧
+    (violateRule w = some errRule ↔ w.obey = true) ∧
+    (∀ e, (contact w).2 = some e → e = errRule) ∧ (∀ e, (request w).2 = some e → e = errRule) := by
+  unfold contact request violateRule contactDelay requestDelay
+  refine ⟨?_, ?_, ?_, ?_, ?_⟩ <;> (repeat' split) <;> simp_all
+
+/-- A refused contact / request changes nothing (no time stamp, no state); an accepted one records the current time and
+nothing else. -/
+theorem C20_web_refusal_pure (w : Web) :
+    (∀ e, (contact w).2 = some e → (contact w).1 = w) ∧
+    (∀ e, (request w).2 = some e → (request w).1 = w) ∧
+    ((contact w).2 = none → (contact w).1 = { w with lastContact := w.now }) ∧
+    ((request w).2 = none → (request w).1 = { w with lastRequest := w.now }) := by
+  unfold contact request violateRule
+  refine ⟨?_, ?_, ?_, ?_⟩ <;> (repeat' split) <;> simp_all
+
+/-- Life-cycle calls refused by the state guard change nothing either. -/
+theorem C20_web_state_refusal_pure (w : Web) (c : Web.Call) (h : (Web.step w c).2 = .err .stateError) :
+    (Web.step w c).1 = w :=
+  Web.step_refused_pure w c h
+
+/-- Clean-up exactly once for the web wrapper as well: after any history of calls, clock steps and direct rule calls, with
+any server script, a terminal state has seen exactly one `clean_up()` (one Delete request), every other state none; results
+exist only in JOINED. -/
+theorem C20_web_cleanup_once (obey tooLarge : Bool) (k : Nat) (cs : List Web.Call) :
+    let w := Web.run { obey := obey, k := k, tooLarge := tooLarge } cs
+    (w.state.terminal = true → w.cleanups = 1) ∧ (w.state.terminal = false → w.cleanups = 0) ∧
+    (w.hasResult = true → w.state = .joined) :=
+  Web.run_inv _ cs (by simp [Web.Inv, AppState.terminal])
+
+/-- Non-vacuity: the 3 s boundary (2 s refused, 3 s accepted), the free mode, a whole run against a slow server, a
+timeout, and a rule violation at submission (60 s rule) that ends CANCELLED and cleaned. -/
+example : (contact { obey := true, k := 0, tooLarge := false, now := 1002, lastContact := 1000 }).2 = some errRule := by decide
+example : (contact { obey := true, k := 0, tooLarge := false, now := 1003, lastContact := 1000 }).2 = none := by decide
+example : (contact { obey := false, k := 0, tooLarge := false, now := 1000, lastContact := 1000 }).2 = none := by decide
+example :
+    let w := Web.run { obey := true, k := 2, tooLarge := false } [.start, .join none]
+    w.state = .joined ∧ w.cleanups = 1 ∧ w.hasResult = true ∧ w.sent = 6 := by decide
+example : (Web.step (Web.run { obey := true, k := 9, tooLarge := false } [.start]) (.join (some 4))).2 = .err errTimeout := by
+  decide
+example :
+    let r := Web.step (Web.run { obey := true, k := 0, tooLarge := false } [.request, .clock 3]) .start
+    r.2 = .err errRule ∧ r.1.state = .cancelled ∧ r.1.cleanups = 1 := by decide
+
+end WebRules
 
 /-! ## Non-vacuity: the hypotheses are satisfiable and the interesting branches are reached -/
 
